@@ -47,6 +47,11 @@ def run(res, replay=None):
     else:
         specs = []
         for i in range(nspec):
+            if i % 5 == 2:
+                # the same sizes / rates in force in two finite epochs of different duration (bottleneck and recovery,
+                # or an epoch split unevenly by a redundant change point)
+                specs.append(gen.recurring_spec(rng, n_total=rng.choice([2, 3, 4]), n_demes=rng.choice([1, 1, 2])))
+                continue
             specs.append(gen.rand_spec(rng, n_total=rng.choice([2, 3, 3, 4] if res.tier == 'quick' else [2, 3, 4, 4, 5]),
                                        n_demes=rng.choice([1, 2, 2, 3]) , n_epochs=rng.choice([1, 2, 3, 4]),
                                        size_range=(-3, 3), mig_only_boundary=(i % 3 == 0)))
